@@ -336,7 +336,45 @@ def _yaj_solve(i):
     return is_sat, got
 
 
-register("yajilin", _yaj_gen, _yaj_truth, _yaj_solve)
+def _yaj_check(i, got):
+    h, w, p = i["h"], i["w"], i["p"]
+    c = cycle_of(h, w, {k: v for k, v in got.items() if k[0] in "hv"})
+    if c is None:
+        return False
+    passed = {q for e in c for q in e}
+    black = set()
+    for y, x in allc(h, w):
+        b = got.get(f"b{y},{x}")
+        if b is not True and b is not False:
+            return False
+        if b:
+            black.add((y, x))
+    for y, x in allc(h, w):
+        if p[y][x] != "..":
+            if (y, x) in passed or (y, x) in black:
+                return False
+        elif ((y, x) in passed) == ((y, x) in black):
+            return False  # every blank cell is either on the loop or shaded, never both
+    if any((y + 1, x) in black or (y, x + 1) in black for y, x in black):
+        return False
+    for y, x in allc(h, w):
+        cl = p[y][x]
+        if cl not in ("..", "??"):
+            k, d = int(cl[1:]), cl[0]
+            if d == "^":
+                cnt = sum(1 for y2 in range(0, y) if (y2, x) in black)
+            elif d == "v":
+                cnt = sum(1 for y2 in range(y + 1, h) if (y2, x) in black)
+            elif d == "<":
+                cnt = sum(1 for x2 in range(0, x) if (y, x2) in black)
+            else:
+                cnt = sum(1 for x2 in range(x + 1, w) if (y, x2) in black)
+            if cnt != k:
+                return False
+    return True
+
+
+register("yajilin", _yaj_gen, _yaj_truth, _yaj_solve, _yaj_check)
 
 
 # ======================================================================================= nurikabe
